@@ -84,6 +84,7 @@ TickTags ==
   \cup (IF acc' < 0 \/ acc' >= M THEN {"C02:position-range"} ELSE {})
   \cup (IF phase \in Timed /\ same /\ (d < lo \/ d > hi) THEN {"C02:increment"} ELSE {})
   \cup (IF phase \in Timed /\ same /\ acc + lo >= M THEN {"C02:overstays", "C17:phase-never-ends"} ELSE {})
+  \cup (IF phase \in Timed /\ same /\ d <= 0 THEN {"C17:no-progress"} ELSE {})
   \cup (IF phase \in Timed /\ ~same /\ acc + hi < M THEN {"C02:leaves-early"} ELSE {})
   \cup (IF phase \in Timed /\ ~same /\ acc' # 0 THEN {"C02:phase-start-position"} ELSE {})
   \cup (IF phase \notin Timed /\ acc' # acc THEN {"C02:position-moves-untimed"} ELSE {})
@@ -111,6 +112,7 @@ SkipTags ==
       d  == acc' - acc
   IN   (IF phase' # phase THEN {"C02:phase-order"} ELSE {})
   \cup (IF phase \in Timed /\ (d < Lower(p) * e.n \/ d > Upper(p) * e.n) THEN {"C02:increment"} ELSE {})
+  \cup (IF phase \in Timed /\ phase' = phase /\ d <= 0 THEN {"C17:no-progress"} ELSE {})
   \cup RangeTags
   \cup (IF cont /\ phase = "attack" /\ e.k < lastK THEN {"C01:attack-not-monotone"} ELSE {})
   \cup (IF cont /\ phase \in {"decay", "release"} /\ e.k > lastK THEN {"C01:fall-not-monotone"} ELSE {})
@@ -132,6 +134,7 @@ TOn ==
   /\ UNCHANGED <<lvlOff, S, step, Skey, lastK, sAtTick, fresh>>
   /\ cont' = (cont /\ phase = "attack")
   /\ Advance(   (IF ~C02_order("on") \/ (phase # "attack" /\ acc' # 0) THEN {"C02:gate-on"} ELSE {})
+           \cup (IF phase # "attack" /\ phase' = "attack" /\ acc' # 0 THEN {"C01:segment-start"} ELSE {})
            \cup (IF e.q # val THEN {"C03:gate-changes-output"} ELSE {}))
 
 TOff ==
@@ -142,6 +145,8 @@ TOff ==
   /\ cont' = (cont /\ phase \in {"release", "rest"})
   /\ Advance(   (IF ~C02_order("off") \/ (phase \in {"attack", "decay", "sustain"} /\ acc' # 0)
                    THEN {"C02:gate-off"} ELSE {})
+           \cup (IF phase \in {"attack", "decay", "sustain"} /\ phase' = "release" /\ acc' # 0
+                   THEN {"C01:segment-start"} ELSE {})
            \cup (IF e.q # val THEN {"C03:gate-changes-output"} ELSE {}))
 
 \* ---- parameters --------------------------------------------------------------------------------
